@@ -59,7 +59,15 @@ type c15Spec struct {
 	File     *c15S    `json:"file,omitempty"`     // *FromFile: file content
 	Dataset  []c15S   `json:"dataset,omitempty"`  // *FromDataset: entries
 	Capture  bool     `json:"capture,omitempty"`
-	NoJudge  string   `json:"no_judge,omitempty"` // non-empty: the predicate is not pinned for this argument (reason)
+	// @rx: the instance is built with RxPreFilterEnabled (end-to-end: SecRxPreFilter On); the documented predicate is the same
+	Prefilter bool `json:"rx_prefilter,omitempty"`
+	// @rx anchored / case-insensitive literal sub-population: the literal the pattern was built around (evidence counters only)
+	Literal *c15S `json:"rx_literal,omitempty"`
+	// *FromFile: how File was written around the listed entries (evidence and violation classes only): pad=none|some|all,eol=lf|crlf|mixed,final=one|none|many
+	FileStyle string `json:"file_style,omitempty"`
+	// *FromDataset, end-to-end only: the body of the SecDataset block (padded, commented, duplicated lines around Dataset)
+	DatasetText *c15S  `json:"dataset_text,omitempty"`
+	NoJudge     string `json:"no_judge,omitempty"` // non-empty: the predicate is not pinned for this argument (reason)
 }
 
 // c15Tok is one token of the byte-escape @rx sub-language: a literal byte or "any byte".
